@@ -227,6 +227,30 @@ class ClassInfo:
                 if st.value is not None:
                     self.assigns[st.target.id] = st.value
                     self.assign_nodes[st.target.id] = st
+        # class-body statements that UPDATE a class-level name after its assignment (a loop that fills a table, TABLE[k] = v,
+        # TABLE.update(...), TABLE += ...): the initialiser alone is not the attribute's value — such a name never folds (fail closed)
+        self.body_mutated: set = set()
+        for st in node.body:
+            if isinstance(st, (ast.FunctionDef, ast.AsyncFunctionDef, ast.ClassDef)):
+                continue
+            simple = isinstance(st, (ast.Assign, ast.AnnAssign)) and all(isinstance(t, (ast.Name, ast.Tuple, ast.List)) for t in (st.targets if isinstance(st, ast.Assign) else [st.target]))
+            for n in ast.walk(st):
+                if isinstance(n, (ast.FunctionDef, ast.AsyncFunctionDef, ast.Lambda, ast.ClassDef)):
+                    continue
+                root = None
+                if isinstance(n, (ast.Subscript, ast.Attribute)) and isinstance(n.ctx, (ast.Store, ast.Del)):
+                    root = n
+                elif isinstance(n, ast.AugAssign):
+                    root = n.target
+                elif isinstance(n, ast.Call) and isinstance(n.func, ast.Attribute) and n.func.attr in (
+                        "update", "append", "extend", "insert", "setdefault", "pop", "remove", "clear", "add", "sort", "reverse", "__setitem__", "fill", "put"):
+                    root = n.func.value
+                elif isinstance(n, ast.Name) and isinstance(n.ctx, ast.Store) and not simple:
+                    root = n          # re-bound inside a loop / if / with of the class body
+                while isinstance(root, (ast.Subscript, ast.Attribute)):
+                    root = root.value
+                if isinstance(root, ast.Name) and root.id in self.assigns:
+                    self.body_mutated.add(root.id)
 
     @property
     def qualname(self):
@@ -544,6 +568,8 @@ class Repo:
     def class_const(self, ci: ClassInfo, attr: str):
         """Folded value of class-level attribute `attr` (searching the MRO)."""
         owner = self.class_attr_owner(ci, attr)
+        if owner is not None and attr in getattr(owner, "body_mutated", ()):
+            raise Unfoldable(f"{owner.name}.{attr} is updated by later statements of the class body (a loop / item store / update call) — its value is not its initialiser")
         for c_ in self.mro(ci):
             dyn = self.import_time_class_stores.get(c_.name, ())
             if attr in dyn or "*" in dyn:
